@@ -362,7 +362,15 @@ def build(s):
         return E.ConstantExpression(_number(*p))
     if k == "Variable":
         return E.VariableExpression(p)
-    cls = getattr(E, k + "Expression")
+    cls = getattr(E, k + "Expression", None)
+    if cls is None:
+        # not an expression class (raw BinaryTreeNode, bare MathExpression): generic node
+        from mathy_core.tree import BinaryTreeNode
+
+        cls = E.MathExpression if k == "Math" else BinaryTreeNode
+        if cls is BinaryTreeNode:
+            return cls(build(l), build(r))
+        return cls(None, build(l), build(r))
     if k in UNARY:
         child = build(l if l is not None else r)
         on_left = bool(p) if (l is None) != (r is None) else False
